@@ -939,6 +939,9 @@ class _IsinstanceToMatch(ast.NodeTransformer):
                     out.append(m)
                     i = j
                     continue
+                # not a class dispatch at this level: an `elif` tail may still be one
+                if len(s.orelse) == 1 and isinstance(s.orelse[0], ast.If):
+                    s.orelse = self._block(s.orelse)
             out.append(s)
             i += 1
         return out
@@ -948,6 +951,8 @@ class _IsinstanceToMatch(ast.NodeTransformer):
         for field in ("body", "orelse", "finalbody"):
             v = getattr(node, field, None)
             if isinstance(v, list) and v and isinstance(v[0], ast.stmt):
+                if field == "orelse" and isinstance(node, ast.If) and len(v) == 1 and isinstance(v[0], ast.If):
+                    continue  # an `elif`: the chain is converted as a whole from its first `if`
                 setattr(node, field, self._block(v))
         if isinstance(node, ast.Match):
             for c in node.cases:
